@@ -106,6 +106,11 @@ IlVerdict(w, s, il, g) ==
       placement |-> IF TokenAware(w, s, grp.qs[1]) THEN Placement(w, s, grp.qs[1]) ELSE <<>>,
       firstbad |-> LET bs == {j \in 1 .. n : per[j] # {}} IN IF bs = {} THEN 0 ELSE CHOOSE j \in bs : \A m \in bs : j <= m]
 
+\* a node reported down while a plan is being consumed (it had not been offered yet) is not offered by the rest of the plan
+MidOf(r) == IF "mid" \in DOMAIN r THEN r.mid ELSE <<>>
+MidBad(r) == {[q |-> MidOf(r)[i].q, first |-> MidOf(r)[i].first, victim |-> MidOf(r)[i].victim, rest |-> MidOf(r)[i].rest] :
+                i \in {j \in 1 .. Len(MidOf(r)) : \E k \in 1 .. Len(MidOf(r)[j].rest) : MidOf(r)[j].rest[k] = MidOf(r)[j].victim}}
+
 Verdict(r) ==
   LET w == r.w
       upto == IF r.pat > 0 THEN r.pat ELSE Len(r.hist)
@@ -114,7 +119,7 @@ Verdict(r) ==
       iv == [g \in 1 .. Len(r.il) |-> IlVerdict(w, s, r.il, g)]
   IN [id |-> r.id, pclass |-> r.pclass, pat |-> r.pat, pgrp |-> r.pgrp, pil |-> r.pil, xov |-> r.xov,
       ilbad |-> {iv[g] : g \in {x \in 1 .. Len(r.il) : iv[x].kinds # {} \/ iv[x].stored # {}}},
-      absentdc |-> NamesAbsentDc(w, s), emptyring |-> Len(CurRing(w, s)) = 0,
+      absentdc |-> NamesAbsentDc(w, s), emptyring |-> Len(CurRing(w, s)) = 0, midbad |-> MidBad(r),
       bad |-> {gv[g] : g \in {x \in 1 .. Len(r.groups) : gv[x].kinds # {} \/ gv[x].stored # {}}},
       drift |-> UNION {gv[g].drift : g \in 1 .. Len(r.groups)},
       driftsample |-> LET ds == {x \in 1 .. Len(r.groups) : gv[x].drift # {}} IN
@@ -131,6 +136,6 @@ Report == l > 0 =>
   IF ~WellFormed(Log[l]) THEN PrintT(<<"MALFORMED", ToJson([id |-> Log[l].id])>>)
   ELSE LET v == Verdict(Log[l]) IN
        \* xov: calls that entered the NextHost function of one query while another call was inside it
-       /\ (v.pclass # "none" \/ v.bad # {} \/ v.ilbad # {} \/ v.xov > 0) => PrintT(<<"VIOL", ToJson(v)>>)
-       /\ (v.pclass = "none" /\ v.bad = {} /\ v.ilbad = {} /\ v.xov = 0 /\ v.drift # {}) => PrintT(<<"DRIFT", ToJson(v)>>)
+       /\ (v.pclass # "none" \/ v.bad # {} \/ v.ilbad # {} \/ v.xov > 0 \/ v.midbad # {}) => PrintT(<<"VIOL", ToJson(v)>>)
+       /\ (v.pclass = "none" /\ v.bad = {} /\ v.ilbad = {} /\ v.xov = 0 /\ v.midbad = {} /\ v.drift # {}) => PrintT(<<"DRIFT", ToJson(v)>>)
 =============================================================================
